@@ -176,6 +176,14 @@ func execHist(p histPlan) histObs {
 	dialer := func(dctx context.Context, addr string) (net.Conn, error) {
 		mu.Lock()
 		i := len(dials)
+		if i >= p.NDials {
+			// The history is complete: park further dials. (With Multiplier < 1
+			// the backoff shrinks to 0 ns and the reconnect loop would spin
+			// without virtual time ever advancing.)
+			mu.Unlock()
+			<-dctx.Done()
+			return nil, dctx.Err()
+		}
 		o := p.Outcomes[i%len(p.Outcomes)]
 		rec := &dialRec{addr: addr, start: time.Now(), kind: o.Kind}
 		dials = append(dials, rec)
